@@ -182,20 +182,58 @@ def clientFirstBytes (c : ClientCfg) : List Nat :=
 
 /-! ## 3. Certificates in play (abstract) and the session decision -/
 
+/-! ### Host names and IP literals (crypto/x509 `Certificate.VerifyHostname`, ASSUMED; sampled by the
+      certificate lattice and by the in-memory handshakes of the `ident` op)
+
+  ```
+  if ip := net.ParseIP(candidateIP); ip != nil {          // "We only match IP addresses against IP SANs."
+      for _, candidate := range c.IPAddresses { if ip.Equal(candidate) { return nil } }
+      return HostnameError{c, candidateIP} }
+  for _, match := range c.DNSNames { … matchHostnames / matchExactly … }
+  ```
+  Model domain: IPv4 literals in dotted-decimal form (what `netip.ParseAddr` accepts: four fields,
+  each 1–3 digits, ≤ 255, no leading zero), DNS names compared exactly (lower case, no wildcard
+  patterns in the certificate).  IPv6 literals, bracketed literals and wildcard SANs are outside the
+  domain (the driver skips them). -/
+
+def isDigit (b : Nat) : Bool := 48 ≤ b && b ≤ 57
+
+def decVal (f : Str) : Nat := f.foldl (fun a b => a * 10 + (b - 48)) 0
+
+/-- one dotted-decimal field: `netip.parseIPv4` — digits only, at most 255, "IPv4 field has octet with
+    leading zero" -/
+def octetOk (f : Str) : Bool :=
+  !f.isEmpty && f.length ≤ 3 && f.all isDigit && decVal f ≤ 255 && (f.length == 1 || f.head? != some 48)
+
+/-- `net.ParseIP(n) != nil` for the IPv4 form -/
+def isIPv4 (n : Str) : Bool :=
+  let fs := Str.splitOn Str.dot n
+  fs.length == 4 && fs.all octetOk
+
+/-- outside the model's name domain: IPv6 / bracketed literals, wildcard patterns, upper case -/
+def nameInDomain (n : Str) : Bool :=
+  n.all fun b => b != Str.colon && b != 91 && b != 93 && b != Str.star && !(65 ≤ b && b ≤ 90)
+
 /-- facts about the certificate files; CA identities are numbers -/
 structure Pki where
   srvCertIssuer : Option Nat := none     -- CA that signed the server's configured certificate
-  srvCertNames : List Str := []          -- SANs of that certificate
+  srvCertDNS : List Str := []            -- dNSName SANs of that certificate
+  srvCertIPs : List Str := []            -- iPAddress SANs of that certificate (dotted decimal)
   cliRootCA : Nat := 0                   -- CA in the client's trustedCaFile
   cliCertIssuer : Option Nat := none     -- CA that signed the client's configured certificate
   srvClientCA : Nat := 0                 -- CA in the server's trustedCaFile
   deriving DecidableEq, Repr
 
+/-- `leaf.VerifyHostname(name)`: an IP literal is matched against the IP SANs ONLY, anything else
+    against the DNS SANs only -/
+def certMatchesName (p : Pki) (n : Str) : Bool :=
+  if isIPv4 n then p.srvCertIPs.contains n else p.srvCertDNS.contains n
+
 /-- crypto/tls client side: skip, or chain to RootCAs and match ServerName (ASSUMED behaviour of
     crypto/tls + crypto/x509; sampled by the certificate matrix of the engine) -/
 def serverCertAccepted (s : ServerCfg) (ct : ClientTls) (p : Pki) : Bool :=
   ct.insecureSkipVerify ||
-    (s.certGiven && p.srvCertIssuer == some p.cliRootCA && p.srvCertNames.contains ct.serverName)
+    (s.certGiven && p.srvCertIssuer == some p.cliRootCA && certMatchesName p ct.serverName)
 
 /-- crypto/tls server side with RequireAndVerifyClientCert (ASSUMED, sampled) -/
 def clientCertAccepted (st : ServerTls) (ct : ClientTls) (p : Pki) : Bool :=
